@@ -457,26 +457,98 @@ type checkOpts struct {
 	tag                       string
 }
 
+// cmdCheck runs every engine that serves the property (usually one) and writes one evidence file.
 func cmdCheck(o checkOpts) int {
 	start := time.Now()
 	es, err := loadEngines()
 	if err != nil {
 		die(2, "%v", err)
 	}
-	e := engineFor(es, o.prop, o.engine)
-	if e == nil {
+	var serving []*EngineDef
+	for _, e := range es {
+		if o.engine != "" {
+			if e.Name == o.engine {
+				serving = append(serving, e)
+			}
+			continue
+		}
+		for _, p := range e.Props {
+			if p == o.prop {
+				serving = append(serving, e)
+			}
+		}
+	}
+	if len(serving) == 0 {
 		die(2, "no engine serves property %s", o.prop)
 	}
+	code := 0
+	var covs []map[string]any
+	var assume []string
+	level := "exploration"
+	unknown := 0
+	for _, e := range serving {
+		c, cov, unk := checkOne(o, e)
+		if c == 2 {
+			return 2
+		}
+		if c > code {
+			code = c
+		}
+		unknown += unk
+		if cov != nil {
+			cov["engine"] = e.Name
+			covs = append(covs, cov)
+		}
+		assume = append(assume, e.Assume...)
+		if l, ok := e.Level[o.prop]; ok {
+			level = l
+		}
+	}
+	if !o.noEvidence && o.patch == "" && len(covs) > 0 {
+		cov := covs[0]
+		if len(covs) > 1 {
+			// merge: counts add up, samples concatenate, per-engine details kept under "engines"
+			m := map[string]any{"engines": covs}
+			ev, dn := 0, 0
+			var samples []any
+			rule := ""
+			for _, c := range covs {
+				ev += c["evaluations"].(int)
+				dn += c["distinct_nontrivial"].(int)
+				if ss, ok := c["samples"].([]any); ok {
+					samples = append(samples, ss...)
+				}
+				rule += fmt.Sprintf("[engine %v] %v ", c["engine"], c["rule"])
+			}
+			m["evaluations"], m["distinct_nontrivial"], m["samples"], m["rule"] = ev, dn, samples, rule
+			cov = m
+		}
+		evd := map[string]any{
+			"property_id": o.prop, "tier": o.tier, "seed": o.seed, "level": level, "coverage": cov,
+			"assumptions": assume, "wall_s": time.Since(start).Seconds(), "violations": unknown,
+		}
+		eb, _ := json.MarshalIndent(evd, "", " ")
+		_ = os.MkdirAll(filepath.Join(verifDir, "evidence"), 0o755)
+		tmp := filepath.Join(verifDir, "evidence", o.prop+".json.tmp")
+		_ = os.WriteFile(tmp, eb, 0o644)
+		_ = os.Rename(tmp, filepath.Join(verifDir, "evidence", o.prop+".json"))
+	}
+	return code
+}
+
+// checkOne runs one engine for the property: exit code, coverage map for the evidence, number of unrecorded violation classes.
+func checkOne(o checkOpts, e *EngineDef) (int, map[string]any, int) {
+	start := time.Now()
 	tag := o.tag
 	if tag == "" {
-		tag = fmt.Sprintf("%s-%s-%d", o.prop, o.tier, os.Getpid())
+		tag = fmt.Sprintf("%s-%s-%s-%d", o.prop, e.Name, o.tier, os.Getpid())
 	}
 	wd := workDir(tag)
 	defer os.RemoveAll(wd)
 	bin, ist, err := build(e, wd, o.patch)
 	if err != nil {
 		fmt.Fprintf(os.Stderr, "BUILD-ERROR property=%s\n%v\n", o.prop, err)
-		return 2
+		return 2, nil, 0
 	}
 	buildS := time.Since(start).Seconds()
 	seconds := o.seconds
@@ -524,7 +596,7 @@ func cmdCheck(o checkOpts) int {
 	for w, err := range errs {
 		if err != nil {
 			fmt.Fprintf(os.Stderr, "MACHINERY-ERROR property=%s worker=%d: %v\n%s\n", o.prop, w, err, logs[w])
-			return 2
+			return 2, nil, 0
 		}
 	}
 	// aggregate
@@ -581,7 +653,7 @@ func cmdCheck(o checkOpts) int {
 	}
 	if agg.Harness != "" {
 		fmt.Fprintf(os.Stderr, "MACHINERY-ERROR property=%s: %s\n", o.prop, agg.Harness)
-		return 2
+		return 2, nil, 0
 	}
 	// shrink + write replay files: unrecorded signatures first, untagged before tagged
 	findings := loadFindings()
@@ -628,7 +700,7 @@ func cmdCheck(o checkOpts) int {
 			b, lg, err := runJob(bin, job, wd, fmt.Sprintf("shrink%d", i), 2, 400*time.Second)
 			if err != nil {
 				fmt.Fprintf(os.Stderr, "MACHINERY-ERROR property=%s: shrink failed: %v\n%s\n", o.prop, err, lg)
-				return 2
+				return 2, nil, 0
 			}
 			var sr struct {
 				Replay  json.RawMessage `json:"replay"`
@@ -640,7 +712,7 @@ func cmdCheck(o checkOpts) int {
 			if sr.Harness != "" || !sr.OK {
 				fmt.Fprintf(os.Stderr, "MACHINERY-ERROR property=%s: violation %s does not replay deterministically: %s\n(message was: %s)\n", o.prop, sig, sr.Harness, fv.Violation.Message)
 				_ = os.WriteFile(filepath.Join(verifDir, ".work", "noreplay-"+o.prop+".json"), rb, 0o644)
-				return 2
+				return 2, nil, 0
 			}
 			var pretty bytes.Buffer
 			_ = json.Indent(&pretty, sr.Replay, "", " ")
@@ -671,16 +743,13 @@ func cmdCheck(o checkOpts) int {
 			unknown++
 		}
 	}
-	if !o.noEvidence && o.patch == "" {
-		level := "exploration"
-		if l, ok := e.Level[o.prop]; ok {
-			level = l
-		}
+	var cov map[string]any
+	{
 		runWall := wall - buildS
 		if runWall < 0.001 {
 			runWall = 0.001
 		}
-		cov := map[string]any{
+		cov = map[string]any{
 			"evaluations":         agg.Runs,
 			"distinct_nontrivial": len(distinct),
 			"rule": "each evaluation is one simulated run: plan = generate(mix(VERIF_SEED, property, index)) executed under the token-passing scheduler in a synctest bubble; " +
@@ -710,21 +779,12 @@ func cmdCheck(o checkOpts) int {
 			"go_toolchain":          "go1.26.8 (overlay-patched runtime: seeded map order)",
 			"violation_signatures":  sigOrder,
 		}
-		ev := map[string]any{
-			"property_id": o.prop, "tier": o.tier, "seed": o.seed, "level": level, "coverage": cov,
-			"assumptions": e.Assume, "wall_s": wall, "violations": unknown,
-		}
-		eb, _ := json.MarshalIndent(ev, "", " ")
-		_ = os.MkdirAll(filepath.Join(verifDir, "evidence"), 0o755)
-		tmp := filepath.Join(verifDir, "evidence", o.prop+".json.tmp")
-		_ = os.WriteFile(tmp, eb, 0o644)
-		_ = os.Rename(tmp, filepath.Join(verifDir, "evidence", o.prop+".json"))
 	}
 	fmt.Printf("property=%s engine=%s tier=%s seed=%d runs=%d nontrivial=%d distinct=%d steps=%d faults=%v wall=%.1fs build=%.1fs\n",
 		o.prop, e.Name, o.tier, o.seed, agg.Runs, agg.Nontrivial, len(distinct), agg.Stats.Steps, agg.Stats.Faults, wall, buildS)
 	if agg.Runs == 0 || len(distinct) < 2 {
 		fmt.Fprintf(os.Stderr, "MACHINERY-ERROR property=%s: explored nothing (runs=%d distinct=%d)\n", o.prop, agg.Runs, len(distinct))
-		return 2
+		return 2, nil, 0
 	}
 	code := 0
 	printed := map[*Finding]int{}
@@ -740,7 +800,7 @@ func cmdCheck(o checkOpts) int {
 		fmt.Printf("  signature: %s\n  shrunk to %d ops\n  %s\n", oc.sig, oc.shrunkOps, firstLines(oc.msg, 12))
 		code = 1
 	}
-	return code
+	return code, cov, unknown
 }
 
 func firstLines(s string, n int) string {
